@@ -2,6 +2,7 @@
   C10 — Reassembly is independent of how the peer fragments a delivery.
 -/
 import Amqp.Reasm
+import Theorems.Chunks
 
 namespace Amqp.Reasm
 
